@@ -40,9 +40,9 @@ std::string Ctx::fileOf(const ref::RefGraph& g, const char* tag, unsigned esz_, 
   for (auto& f : files)
     if (f == p)
       return p;
-  // Odd8 is what FileGraph::fromMem expects; inputs are constructed so that the
-  // choice never matters (even edge count or no edge data in version 2 files)
-  ref::write_gr(p, g, version_, esz_, ref::V2Pad::Odd8);
+  // version 2 has no padding after the 64-bit destinations (documented layout;
+  // every reader and writer of the library agrees since the C12 fix)
+  ref::write_gr(p, g, version_, esz_, ref::V2Pad::None);
   files.push_back(p);
   if (version_ == 2)
     ++v2Files;
@@ -597,29 +597,10 @@ int main(int argc, char** argv) {
           e.data = bits;
         }
     }
-    // .gr version: 2 in a quarter of the cases where the op goes through FileGraph.
-    // Version 2 files are only used where the padding convention is irrelevant
-    // (even edge count or no edge data), see ref/gr_codec.h.
+    // .gr version: 2 in a quarter of the cases (any edge count, with or without edge data)
     c.version = (!(E.flags & F_NO_V2) && rng.below(4) == 0) ? 2 : 1;
     if (H.paramInt("version", 0))
       c.version = (int)H.paramInt("version", 0);
-    if (c.version == 2 && c.esz > 0 && (c.X.numEdges() % 2) == 1) {
-      if (E.flags & F_SYMMETRIC) {
-        ref::RefEdge x(0, c.X.adj[0].empty() ? 5 : c.X.adj[0][0].data);
-        if (!c.X.adj[0].empty())
-          x.ext = c.X.adj[0][0].ext;
-        else if (c.esz > 8)
-          x.ext.assign(c.esz - 8, 'x');
-        if (E.flags & F_FLOAT)
-          x.data = 0x40a00000; // 5.0f
-        c.X.adj[0].push_back(x); // a self loop keeps the graph symmetric
-      } else {
-        ref::RefEdge x = c.X.adj[0].empty() ? ref::RefEdge(c.X.numNodes - 1, 0) : c.X.adj[0].back();
-        if (c.X.adj[0].empty() && c.esz > 8)
-          x.ext.assign(c.esz - 8, 'x');
-        c.X.adj[0].push_back(x);
-      }
-    }
     c.perturb     = T > 1 && rng.below(2) == 0;
     c.perturbSeed = rng.next();
 
